@@ -245,6 +245,17 @@ class Exec:
         self.call_depth += 1
         if self.call_depth > 40:
             raise Unsupported("call depth > 40 (recursion is not modelled)")
+        rkey = None
+        if self.opts.get("reentry_raises") and clo.self_obj is not None:
+            # recursion rule (opt-in, for pure methods): re-entering a method on the object it is already running on, with nothing changed in
+            # between, recurses without bound; CPython ends that with RecursionError (trusted: the interpreter's recursion limit)
+            rkey = (id(fn), id(clo.self_obj))
+            active = self.__dict__.setdefault("active_calls", set())
+            if rkey in active:
+                self.call_depth -= 1
+                self.assumptions_used.add("unbounded recursion of a pure method (re-entered on the same object) ends in CPython's RecursionError")
+                raise RaiseEx("RecursionError", getattr(node, "lineno", None), msg="maximum recursion depth exceeded")
+            active.add(rkey)
         try:
             env = self.bind_args(clo, fn, args, kwargs)
             parents = clo.env_chain
@@ -265,6 +276,8 @@ class Exec:
                 self.cur_fn = saved_fn
         finally:
             self.call_depth -= 1
+            if rkey is not None:
+                self.active_calls.discard(rkey)
 
     def bind_args(self, clo, fn, args, kwargs):
         a = fn.args
@@ -384,6 +397,12 @@ class Exec:
             fr = self.frame
             if isinstance(n.exc, ast.Name) and n.exc.id in fr.env and isinstance(fr.env[n.exc.id], RaiseEx):
                 raise fr.env[n.exc.id]
+            if isinstance(n.exc, ast.Call) and len(n.exc.args) == 1 and not n.exc.keywords:
+                try:
+                    m = self.expr(n.exc.args[0])
+                except Unsupported:
+                    m = None
+                raise RaiseEx(name, n.lineno, msg=m if isinstance(m, str) else None)
         raise RaiseEx(name, n.lineno)
 
     def s_Break(self, n):
